@@ -98,7 +98,16 @@ def _pred(pred, viol):
     d = len(cfg.get("domain", []))
     from .configs import arity
 
-    env = {"cfg": cfg, "p": p, "d": d, "part": cfg.get("part"), "K": cfg.get("K"),
+    import math
+
+    def gpo_N(p):
+        n, rm = p["rounds"], p["rhomax"]
+        return int(math.ceil(0.5 * (math.log(2) / math.log(1 / rm)) * math.log((n / 2) / math.log(n / 2))))
+
+    def gpo_L(p):
+        return int(math.floor(p["rounds"] / (2 * gpo_N(p))))
+
+    env = {"gpo_N": gpo_N, "gpo_L": gpo_L, "cfg": cfg, "p": p, "d": d, "part": cfg.get("part"), "K": cfg.get("K"),
            "arity": arity(cfg) if cfg.get("part") else None, "details": viol.get("details", {}), "T": viol.get("T")}
     return bool(eval(pred, {"__builtins__": {}}, env))
 
@@ -118,7 +127,21 @@ def finish(prop, tier, seed, level, stats, errors, t0, rule, assumptions, replay
     new_viol = []
     known_hit = {}
     flaky = []
-    for v in stats.violations:
+    all_v = list(stats.violations) + [dict(v, count=n) for v, n in stats.soft.values()]
+    # group identical failures (same oracle, algorithm, partition, parameters, box dimension): the first of
+    # each group is confirmed by two replays, the others are counted with it
+    groups = {}
+    for v in all_v:
+        c = v["config"]
+        key = (v["oracle"], c.get("algo"), c.get("part"), c.get("K"), json.dumps(c.get("params"), sort_keys=True, default=str),
+               len(c.get("domain", [])), v.get("details", {}).get("where") if isinstance(v.get("details"), dict) else None,
+               v.get("details", {}).get("early") if isinstance(v.get("details"), dict) else None)
+        g = groups.get(key)
+        if g is None:
+            groups[key] = [v, v.get("count", 1)]
+        else:
+            g[1] += v.get("count", 1)
+    for v, cnt in groups.values():
         if replay_fn is not None and "task" in v:
             ok = []
             for _ in range(2):
@@ -126,14 +149,14 @@ def finish(prop, tier, seed, level, stats, errors, t0, rule, assumptions, replay
                     res = replay_fn(v["task"], v["script"])
                 except HarnessError as e:
                     res = ["HarnessError: %s" % e]
-                ok.append(bool(res) and not isinstance(res[0], str) and res[0]["oracle"] == v["oracle"])
+                ok.append(any((not isinstance(r, str)) and r["oracle"] == v["oracle"] for r in res))
             if not all(ok):
                 flaky.append(v)
                 continue
         kf = match_known(prop, v, known)
         if kf is not None:
             known_hit.setdefault(kf["id"], [kf, 0])
-            known_hit[kf["id"]][1] += 1
+            known_hit[kf["id"]][1] += cnt
         else:
             new_viol.append(v)
     if flaky:
